@@ -30,6 +30,7 @@ func init() {
 	ops["conv"] = opConv
 	ops["dov"] = opDov
 	ops["clean"] = opClean
+	ops["validate"] = opValidate
 	ops["escape"] = opEscape
 	ops["agg"] = opAgg
 	ops["fmax"] = opFmax
@@ -534,6 +535,13 @@ func dovStmt(s *tree.Statement) interface{} {
 func opClean(a map[string]interface{}) (string, string, interface{}) {
 	return "ok", "", tabular.CleanInput(aStr(a, "s"), aStr(a, "sep"))
 }
+// validate: parser.validateInput on a text, for parentheses and for braces
+func opValidate(a map[string]interface{}) (string, string, interface{}) {
+	p := parser.VerifValidateInput(aStr(a, "text"), "(", ")")
+	b := parser.VerifValidateInput(aStr(a, "text"), "{", "}")
+	return "ok", "", J{"paren": p.ErrorCode, "brace": b.ErrorCode}
+}
+
 func opEscape(a map[string]interface{}) (string, string, interface{}) {
 	return "ok", "", shared.EscapeSymbolsForExport(aStr(a, "s"))
 }
